@@ -301,6 +301,80 @@ def _binding_selftest(ctx, b_events, mtrace):
     ctx.coverage["binding_selftest"] = results
 
 
+# ---------------------------------------------------------------------------------------- Miri
+
+def _run_miri(ctx, scratch, result):
+    """Thorough tier: a sample of the TLC-generated cases (every 40th state of Exp_quick, all
+    families) is executed on raw::Reader under Miri (nightly toolchain, if installed): an
+    out-of-bounds / uninitialised / misaligned read on such a case is an error of the interpreter.
+    This is an execution vehicle for the replay, not a second oracle (DESIGN section 7). Stacked
+    Borrows checking is off: `libtw2_common::slice::transmute_mut` derives a mutable slice from
+    `as_ptr()`, an aliasing-model violation outside what C16 states (see docs/datafile.md, D10c)."""
+    import subprocess
+    try:
+        probe = subprocess.run(["cargo", "+nightly", "miri", "--version"], stdout=subprocess.PIPE,
+                               stderr=subprocess.STDOUT, text=True, timeout=120)
+        if probe.returncode != 0:
+            result["miri"] = {"available": False, "why": probe.stdout.strip()[:200]}
+            return
+        tres, rc, out = core.tlc_pipe("DatafileCases.tla", "Exp_quick.cfg",
+                                      ["awk", '/^<<"C"/ { if (n++ % 40 == 0) print }'],
+                                      cwd=CWD, workers=2, timeout=1200, env=_jenv(ctx))
+        sample = os.path.join(ctx.workdir, "miri-cases.txt")
+        with open(sample, "w") as fh:
+            fh.write(out)
+        ncases = out.count("\n")
+        hd = core._harness_dir()
+        env = dict(os.environ, MIRIFLAGS="-Zmiri-disable-isolation -Zmiri-disable-stacked-borrows",
+                   CARGO_NET_OFFLINE="true")
+        t0 = time.time()
+        with open(sample) as fin:
+            r = subprocess.run(["cargo", "+nightly", "miri", "run", "--offline", "-p", "vh-datafile", "--", "replay-mem"],
+                               cwd=hd, env=env, stdin=fin, stdout=subprocess.PIPE, stderr=subprocess.STDOUT,
+                               text=True, timeout=3000)
+        result["miri"] = {"available": True, "rc": r.returncode, "out": r.stdout[-20000:], "cases": ncases,
+                          "wall_s": round(time.time() - t0, 1)}
+    except subprocess.TimeoutExpired:
+        result["miri"] = {"available": True, "timeout": True}
+    except Exception as e:  # noqa: BLE001
+        result["miri"] = e
+
+
+def _judge_miri(ctx, m):
+    if isinstance(m, Exception):
+        raise m
+    if not m.get("available"):
+        ctx.note("Miri not available (%s): the out-of-bounds clause is only covered by panics" % m.get("why", ""))
+        return
+    if m.get("timeout"):
+        ctx.note("Miri run timed out (machine load); not counted")
+        return
+    out = m["out"]
+    ms = re.search(r"MEM-SUMMARY cases=(\d+) mismatches=(\d+) miri=true", out)
+    ub = re.search(r"error: Undefined Behavior: (.*)", out)
+    if ub:
+        loc = re.search(r"-->\s*(\S+)", out[ub.start():])
+        where = loc.group(1) if loc else "?"
+        if core.repo_root() in where or "/repo/" in where:
+            rel = re.sub(r"^.*?/(datafile|common|map|zlib-minimal)/", r"\1/", where)
+            ctx.report("miri-ub:%s:%s" % (re.sub(r":\d+:\d+$", "", rel), ub.group(1)[:80]),
+                       "Miri reports undefined behaviour in the reader on a TLC-generated case: %s at %s" % (ub.group(1), where),
+                       {"kind": "miri", "tail": out[-4000:]})
+        else:
+            ctx.note("Miri stopped outside the library (%s: %s); not counted" % (where, ub.group(1)[:100]))
+        return
+    if not ms:
+        ctx.note("Miri run did not complete (rc=%s): %s" % (m.get("rc"), out[-300:].replace("\n", " | ")))
+        return
+    for line in re.findall(r"^MEM-MISMATCH.*$", out, re.M)[:5]:
+        # the same cases run natively in direction A and are judged there; under Miri only UB counts
+        ctx.note("under Miri: " + line)
+    ctx.add_run("Miri (raw::Reader on a sample of the TLC cases; UB = error)", cases=int(ms.group(1)),
+                mismatches=int(ms.group(2)), wall_s=m.get("wall_s"),
+                flags="-Zmiri-disable-isolation -Zmiri-disable-stacked-borrows")
+    ctx.coverage["miri_cases_without_ub"] = int(ms.group(1))
+
+
 # ---------------------------------------------------------------------------------------- run
 
 def run(ctx):
@@ -317,11 +391,16 @@ def _run(ctx, bins, scratch, quick):
     results = {}
     threads = []
     a_jobs = [("quick", "Exp_quick.cfg", 4, 900)] if quick else \
-             [("small", "Exp_small.cfg", 4, 2400), ("thorough", "Exp_thorough.cfg", 8, 3000)]
+             [("small", "Exp_small.cfg", 3, 2400), ("thorough", "Exp_thorough.cfg", 8, 3000)]
+    cap = int(os.environ.get("C16_TLC_WORKERS", "0") or "0")      # development on a shared machine
+    if cap:
+        a_jobs = [(l, c, min(w, cap), t) for (l, c, w, t) in a_jobs]
     for label, cfg, workers, to in a_jobs:
         threads.append(threading.Thread(target=_run_A, args=(ctx, bins, scratch, cfg, workers, to, label, results)))
     threads.append(threading.Thread(target=_run_M, args=(
         ctx, bins, scratch, "Map_quick.cfg" if quick else "Map_thorough.cfg", 900 if quick else 2400, results)))
+    if not quick and os.environ.get("C16_NO_MIRI", "") == "":
+        threads.append(threading.Thread(target=_run_miri, args=(ctx, scratch, results)))
     for t in threads:
         t.start()
         time.sleep(0.05)      # core's TLC metadir names have millisecond resolution
@@ -387,6 +466,8 @@ def _run(ctx, bins, scratch, quick):
     for k, v in results.items():
         if isinstance(v, Exception):
             raise v
+    if "miri" in results:
+        _judge_miri(ctx, results["miri"])
 
     # ---- (A)
     total_cases = 0
